@@ -5,6 +5,7 @@ Properties.marshal / encode.* is compared with vmon.refcodec.  The reference
 reads the object only through its public attributes, by specification names.
 Decimal fields are compared by decoded meaning (the grammar admits several
 (scale, unscaled) pairs for one value)."""
+import datetime
 import struct
 
 from .. import canon, refcodec, refspec
@@ -167,7 +168,16 @@ def _same(lib, ref, framed):
     except (refcodec.RefError, struct.error, UnicodeDecodeError):
         return None
     if a == b and len(a) == len(lib) and av == bv and av:
-        return 'decimal-equivalent'
+        # the same decimal VALUE under another (scale, unscaled) pair.  The
+        # grammar admits it, but the pair is not free: a Decimal has one
+        # representation (coefficient, exponent), decoding a peer's pair
+        # yields exactly that Decimal and C02 demands that re-encoding a
+        # decoded header reproduces the peer's bytes.  The pinned tree
+        # always writes (scale = -exponent, unscaled = coefficient); the
+        # design's value-only comparison (interpretation (a)) hid a memo
+        # keyed by Decimal equality (11.5 sent with the scale of an earlier
+        # 11.50) and was withdrawn in round 6.
+        return None
     return None
 
 
@@ -209,6 +219,27 @@ def run_case(case, rec):
         common.disturb_encoder(common.RND, 1)
     legacy = bool(case.get('legacy'))
     common.set_legacy(legacy)
+    if rec.evaluations % 2 == 1:
+        # equal values of other types / representations are encoded first
+        # (1 / 1.0 / True / Decimal(1), 11.5 / 11.50, the other fold ...)
+        tw = []
+        if kind in ('table', 'prim'):
+            tw = [case['v']]
+        elif kind == 'method':
+            tw = [x for x in case['vals'].values()
+                  if isinstance(x, (dict, datetime.datetime))]
+        elif kind == 'header':
+            tw = [x for x in case['props'].values()
+                  if isinstance(x, (dict, datetime.datetime))]
+        for x in tw:
+            common.encode_twins(x, common.RND, 1)
+            if isinstance(x, datetime.datetime):
+                from ..gen import values as _gv
+                t = _gv.twin_leaf(x, common.RND)
+                if t is not NotImplemented:
+                    call(encode.timestamp, t)
+        if tw:
+            rec.count('equal_twins_encoded_first')
     try:
         _run(case, rec, kind, legacy, body, commands, encode, header,
              heartbeat)
@@ -450,7 +481,11 @@ def _run(case, rec, kind, legacy, body, commands, encode, header, heartbeat):
                 s2, r2 = struct.unpack('>Bi', ref)
                 if s1 is not None and \
                         gv.D(r1).scaleb(-s1) == gv.D(r2).scaleb(-s2):
-                    rec.count('decimal-equivalent')
+                    rec.violation(
+                        'primitive-bytes:decimal:equivalent-pair',
+                        'encode.decimal(%r) = scale %d unscaled %d; the '
+                        'value\'s own representation is scale %d unscaled '
+                        '%d' % (case['v'], s1, r1, s2, r2), case)
                     return
             rec.violation('primitive-bytes:' + case['t'],
                           'encode.%s(%r) = %s, reference %s'
